@@ -1,6 +1,7 @@
 //! C12: edit::distance / prefix_distance / operations / distances against the model.
 //! input  = (g swap sid norm a b na nb)   a, b as cluster lists from the real CharString;
-//!          `distances` is called on the first na of [a,b,a] and the first nb of [b,a,b]
+//!          `distances` is called on the first na of [a,b,a] and the first nb of [b,a,b] (na, nb <= 3), or on
+//!          a large batch alternating between the text and its first character (na, nb > 3)
 //! output = (dist pdist ops dists)        dist/pdist: the f64 as an exact rational (num den),
 //!          den = 0 for NaN/inf; ops: ((op i j) ..) op 0..3 = Insert Delete Replace Swap;
 //!          dists: option of a list of rationals (None = Err)
@@ -191,8 +192,13 @@ impl Prop for C12 {
         } else {
             (a, b)
         };
-        let na = if rng.chance(1, 2) { 1 } else { rng.below(4) };
-        let nb = if rng.chance(1, 8) { rng.below(4) } else { na };
+        let mut na = if rng.chance(1, 2) { 1 } else { rng.below(4) };
+        let mut nb = if rng.chance(1, 8) { rng.below(4) } else { na };
+        if rng.chance(1, 16) {
+            // a large batch: more pairs than worker threads, big and small matrices alternating
+            na = rng.range(36, 100);
+            nb = if rng.chance(1, 10) { na - 1 } else { na };
+        }
         mk_input(g, swap, sid, norm, &a.concat(), &b.concat(), na, nb)
     }
 
@@ -241,11 +247,21 @@ impl Prop for C12 {
         }
         let na = l[6].as_usize()?;
         let nb = l[7].as_usize()?;
-        if na > 3 || nb > 3 {
+        if na > 128 || nb > 128 {
             return None;
         }
-        let la: Vec<String> = [&a, &b, &a].iter().take(na).map(|s| s.to_string()).collect();
-        let lb: Vec<String> = [&b, &a, &b].iter().take(nb).map(|s| s.to_string()).collect();
+        // up to three elements: prefixes of [a,b,a] / [b,a,b]; more: a large batch alternating between the whole
+        // text and its first character (`batch_list` of the model)
+        let batch = |x: &String, y: &String, xv: &Val, n: usize| -> Vec<String> {
+            if n <= 3 {
+                [x, y, x].iter().take(n).map(|s| s.to_string()).collect()
+            } else {
+                let first = xv.as_l().and_then(|l| l.first()).and_then(|c| c.to_string_lossy()).unwrap_or_default();
+                (0..n).map(|k| if k % 2 == 0 { x.clone() } else { first.clone() }).collect()
+            }
+        };
+        let la: Vec<String> = batch(&a, &b, &l[4], na);
+        let lb: Vec<String> = batch(&b, &a, &l[5], nb);
         let (a2, b2) = (a.clone(), b.clone());
         let out = guard(move || {
             let d = distance(&a2, &b2, g, swap, sid, norm);
